@@ -40,7 +40,7 @@ var c10Events = []string{
 }
 
 func c10Gen(rt *rapid.T) c10Plan {
-	mode := rapid.SampledFrom([]string{"forge", "forge", "cross-event", "cross-event", "cross-round", "later", "later", "stale-batch", "forge-synth", "forge-synth"}).Draw(rt, "mode")
+	mode := rapid.SampledFrom([]string{"forge", "forge", "cross-event", "cross-event", "cross-round", "later", "later", "stale-batch", "forge-synth", "forge-synth", "forge-synth-named", "forge-synth-named"}).Draw(rt, "mode")
 	nt := rapid.SampledFrom([][2]int{{2, 2}, {3, 2}, {4, 3}}).Draw(rt, "nt")
 	p := c10Plan{Mode: mode, N: nt[0], T: nt[1], Step: rapid.IntRange(0, 500).Draw(rt, "step"),
 		Other: rapid.IntRange(1, 7).Draw(rt, "other"), Event: rapid.IntRange(0, len(c10Events)-1).Draw(rt, "event"),
@@ -50,7 +50,7 @@ func c10Gen(rt *rapid.T) c10Plan {
 		p.Trace = "tworounds"
 	case "stale-batch":
 		p.Trace = "twobatches"
-	case "forge-synth":
+	case "forge-synth", "forge-synth-named":
 		p.Trace = rapid.SampledFrom([]string{"honest", "twobatches"}).Draw(rt, "trace")
 	case "later":
 		p.Trace = rapid.SampledFrom([]string{"twobatches", "twobatches", "honest"}).Draw(rt, "trace")
@@ -121,7 +121,7 @@ func c10Run(t *testing.T, st *vstat.Stats, p c10Plan) (v *viol) {
 		msg.Event = ne
 		key = fmt.Sprintf("replay:cross-event:%s->%s", src.Msg.Event, ne)
 		what = fmt.Sprintf("%s's genuine %s re-posted unchanged under the event name %s", src.Msg.SenderAddr, src.Msg.Event, ne)
-	case "forge-synth":
+	case "forge-synth", "forge-synth-named":
 		// a request of any event type acceptable in this state, made out for participant P (who is still awaited)
 		// but signed and sent by another registered participant S
 		evs := c10StateEvents[src.State]
@@ -137,6 +137,19 @@ func c10Run(t *testing.T, st *vstat.Stats, p c10Plan) (v *viol) {
 		synthOwn = &storage.Message{DkgRoundID: tr.Round, Event: ev, Data: data, SenderAddr: tr.Names[pIdx], Signature: ed25519.Sign(tr.Keys[pIdx].Priv, data)}
 		key = "forged-participant:" + ev
 		what = fmt.Sprintf("a %s request made out for %s (ParticipantId=%d), signed and sent by %s", ev, tr.Names[pIdx], pIdx, tr.Names[sIdx])
+		if p.Mode == "forge-synth-named" {
+			// the same request posted under P's name as well (only the signature is S's); every second case aims at
+			// the observing node's own participant, whose messages also come back to it over the board
+			if p.Step%2 == 0 {
+				pIdx = 0
+				sIdx = 1 + p.Later%(tr.N-1)
+				data = c10Synth(ev, pIdx, src.Msg)
+				synthOwn = &storage.Message{DkgRoundID: tr.Round, Event: ev, Data: data, SenderAddr: tr.Names[pIdx], Signature: ed25519.Sign(tr.Keys[pIdx].Priv, data)}
+			}
+			msg = storage.Message{DkgRoundID: tr.Round, Event: ev, Data: data, SenderAddr: tr.Names[pIdx], Signature: ed25519.Sign(tr.Keys[sIdx].Priv, data)}
+			key = "forged-in-name:" + ev
+			what = fmt.Sprintf("a %s request made out for and posted in the name of %s (ParticipantId=%d), but signed with %s's key", ev, tr.Names[pIdx], pIdx, tr.Names[sIdx])
+		}
 	case "stale-batch":
 		// a participant's genuine partial signatures for the first batch, re-posted while the second batch is collecting
 		var firsts, seconds []int
@@ -209,7 +222,7 @@ func c10Run(t *testing.T, st *vstat.Stats, p c10Plan) (v *viol) {
 		}
 		// non-triviality: the original is acceptable in its own round and step
 		nontrivial := false
-		if p.Mode == "forge-synth" {
+		if p.Mode == "forge-synth" || p.Mode == "forge-synth-named" {
 			// non-trivial iff the very same request, signed by the participant it is made out for, is accepted here
 			nd2, dir2, err := openSnapshot(tr, src.SnapDir)
 			if err == nil {
@@ -218,7 +231,7 @@ func c10Run(t *testing.T, st *vstat.Stats, p c10Plan) (v *viol) {
 			}
 			os.RemoveAll(dir2)
 			if nontrivial {
-				st.Class("forge-synth:" + msg.Event)
+				st.Class(p.Mode + ":" + msg.Event)
 			}
 		} else if p.Mode == "cross-event" || p.Mode == "later" || p.Mode == "stale-batch" {
 			nontrivial = true // the original was accepted when the trace was recorded; the replay names a step it was not made for
